@@ -264,12 +264,6 @@ def ofExcept {T : Type} (r : Except String T) (k : T → Reply α) : Reply α :=
         | none => .bad "decode-fixed"
       | none => .bad "decode-2"
     | none => .bad "decode"
-  | "man_cast_intended" =>
-    match (MT.sub t).decode x 0 with
-    | some (s, o) =>
-      if o = x.size then ofExcept (subCastIntended t.man s) (fun c => .words ((MT.sub t).encode c))
-      else .bad "arity"
-    | none => .bad "decode"
   | _ => .bad ("unknown-op " ++ op)
 
 def replyString [Bits α] (r : Reply α) : String :=
@@ -290,7 +284,7 @@ def runManifAt (α : Type) [Scalar α] [Bits α] (op grp : String) (args : Array
           (anyDefaultCtor (Ms := Fam4 (a.carrier α) (b.carrier α) (c.carrier α) (d.carrier α)))
           (fun _ => .bad "constructed"))
       | _ => "ERR not-an-anymanifold"
-    else if op == "man_subctor" || op == "man_cast_intended" then
+    else if op == "man_subctor" then
       match t with
       | .sub t' => replyString (runSubOp t' op x)
       | _ => "ERR not-a-submanifold"
